@@ -1378,7 +1378,7 @@ Proof.
   - eapply rf_insert; eauto.
   - eapply rf_extend; eauto.
   - eapply rf_remove; eauto.
-  - eapply rf_clear; eauto.
+  - pose proof (@rf_clear w _ w' r evs HI H) as X. cbn [spec_step] in *. exact X.
   - eapply rf_entry_add; eauto.
   - eapply rf_entry_remove; eauto.
   - eapply rf_write; eauto.
